@@ -49,7 +49,8 @@ EXPECTED_PROBES = ["fault_before_first_attr", "fault_in_write_skip_metadata",
                    "write_once_refused", "stragglers_at_raise", "recovery_save_ok",
                    "hardlinked_foreign_file", "hardlinked_snapshot_of_saved_object",
                    "target_is_symlink_to_object", "fault_is_keyboard_interrupt",
-                   "dotdot_in_target_sub", "dotdot_in_target_lnk", "warnings_as_errors"]
+                   "dotdot_in_target_sub", "dotdot_in_target_lnk", "warnings_as_errors",
+                   "pre_existing_empty_directory"]
 # thorough tier only: "sweep_exhaustive" / "sweep_strided" count how many workloads were swept over
 # EVERY fault position and how many (more than 700 store positions) over a stride
 
@@ -103,11 +104,13 @@ def gen(rng: Rng, tier, i):
     # "symlink_obj": the target is a symbolic link to an earlier COMPLETE object elsewhere (results
     # folder on scratch storage).  The library may refuse such a save or replace the link; what it
     # must never do is leave a partial object loadable through the target path.
-    pre = rng.weighted([("absent", 3), ("file", 2), ("dir", 1), ("symlink_obj", 1)]) if nver == 1 \
-        else "absent"
+    pre = rng.weighted([("absent", 3), ("file", 2), ("dir", 1), ("symlink_obj", 1), ("emptydir", 1)]) \
+        if nver == 1 else "absent"
     pre_size = rng.randrange(4)
     if tgt["name"].endswith("/") and pre in ("file", "symlink_obj"):
-        pre = "dir"   # 'name/' with a regular file called 'name' is not an existing path for the OS
+        pre = "dir"
+    if pre == "emptydir" and store == "zip":
+        pre = "file"          # an EMPTY directory as pre-existing target (mkdtemp / mkdir-then-save): dir store   # 'name/' with a regular file called 'name' is not an existing path for the OS
     steps = []
     for v in range(nver):
         first = v == 0
@@ -195,6 +198,8 @@ def _setup_pre(E, plan, tgt_path):
             f.write("foreign dir")
         with open(os.path.join(tgt_path, "readme"), "w") as f:
             f.write("foreign")
+    elif plan["pre"] == "emptydir":
+        os.makedirs(tgt_path)
     elif plan["pre"] == "symlink_obj":
         kind = _store_kind(plan)
         real = _real_path(E, plan)
@@ -301,7 +306,9 @@ def _execute(plan, focus_fault, rec_counts=None, refs=None, keep_log=True):
         if "/../" in plan["target"]["name"]:
             bump(out["probes"], "dotdot_in_target_" + plan["target"]["name"].split("/")[0])
         last_ok = None          # version id of the last successful save to the target
-        foreign = plan["pre"] in ("file", "dir")
+        foreign = plan["pre"] in ("file", "dir", "emptydir")
+        if plan["pre"] == "emptydir":
+            bump(out["probes"], "pre_existing_empty_directory")
         REFS = out["refs"] if recording else refs
         symlinked = plan["pre"] == "symlink_obj"
         if symlinked:
